@@ -85,6 +85,10 @@ func verifAssert(label string, c bool) {
 //@   requires inv: spec_csInv(s)
 //@   requires specs: otx != nil ==> forall(k, 0, len(otx.entries), otx.entries[k] != nil)
 //@   requires sepbuf: !sameobj(s._txbs, s) && !sameobj(s._txbs, s.cLogBuf)
+//@   requires hdrsep: hdr != nil ==> !sameobj(s._txbs, hdr)
+// ghost encoding of con-c05 (call counters written by checkPreconditions): the ghost objects exist (initialiser of verif_g)
+//@   requires ghost: spec_ghost()
+//@   requires cells: spec_cells()
 //@   ensures c07_id: r1 == nil && hdr != nil ==> hdr.ID == currPrecomittedTxID + 1
 //@   ensures c07_id_old: r1 == nil && hdr != nil ==> hdr.ID == old(s.inmemPrecommittedTxID) + 1
 //@   ensures c07_prev: r1 == nil && hdr != nil ==> hdr.PrevAlh == currPrecommittedAlh
@@ -104,41 +108,25 @@ func verifAssert(label string, c bool) {
 //@   ensures c07_ret_nent: r1 == nil && hdr != nil ==> r0.NEntries == hdr.NEntries
 //@   ensures c07_hdr_kept: hdr != nil ==> unchanged(hdr)
 //@   ensures c07_dup: hdr != nil && old(s.inmemPrecommittedTxID) >= hdr.ID ==> r1 != nil
+// Gate clauses: the same accept-conditions, stated for the error returns located AFTER the respective check (the sentinel
+// error selects the return sites; the part file claims each clause at the first return sites behind its gate). They are
+// decidable far more cheaply than the success-site clauses above (the query ends before the call of performPrecommit)
+// and fail as soon as a check is weakened, e.g. the Eh comparison bypassed for a zeroed hdr.Eh.
+//@   ensures c07_gate_nent: hdr != nil && r1 == ErrNoEntriesProvided ==> hdr.NEntries == len(otx.entries)
+//@   ensures c07_gate_eh: hdr != nil && !skipIntegrityCheck && (r1 == ErrTxAlreadyCommitted || r1 == ErrMaxActiveTransactionsLimitExceeded) ==> tx.header.Eh == hdr.Eh
+//@   ensures c07_gate_blroot: hdr != nil && r1 == ErrAlreadyClosed ==> hdr.BlRoot == blRoot
+//@   ensures c07_gate_id: hdr != nil && r1 != nil ==> hdr.ID == currPrecomittedTxID + 1
+//@   ensures c07_gate_prev: hdr != nil && r1 != nil ==> hdr.PrevAlh == currPrecommittedAlh
 //@   ensures c07_rej_cid: r1 != nil ==> s.committedTxID == old(s.committedTxID)
 //@   ensures c07_rej_calh: r1 != nil ==> s.committedAlh == old(s.committedAlh)
 //@   ensures c07_rej_pid: r1 != nil ==> s.inmemPrecommittedTxID == old(s.inmemPrecommittedTxID)
 //@   ensures c07_rej_palh: r1 != nil ==> s.inmemPrecommittedAlh == old(s.inmemPrecommittedAlh)
 //@   ensures c07_rej_sz: r1 != nil ==> s.precommittedTxLogSize == old(s.precommittedTxLogSize)
-// both loops write the pooled holders tx.entries[i], which no frame expression can name: `assigns *` + invariants.
-//@   loop 1 assigns *
-//@   loop 1 invariant a_s: unchanged(s)
-//@   loop 1 invariant a_buf: unchanged(s.cLogBuf)
-//@   loop 1 invariant a_arr: unchanged(s.cLogBuf.buf)
-//@   loop 1 invariant a_otx: unchanged(otx)
-//@   loop 1 invariant a_ents: unchanged(otx.entries)
-//@   loop 1 invariant a_hdr: hdr != nil ==> unchanged(hdr)
-//@   loop 1 invariant a_tx: unchanged(tx)
-//@   loop 1 invariant a_txhdr: tx.header != nil
-//@   loop 1 invariant a_sep1: !sameobj(s._txbs, tx)
-//@   loop 1 invariant a_sep2: !sameobj(s._txbs, tx.header)
-//@   loop 1 invariant a_ver: hdr != nil ==> tx.header.Version == hdr.Version
-//@   loop 1 invariant a_md: tx.header.Metadata == otx.metadata
-//@   loop 1 invariant a_nent: tx.header.NEntries == len(otx.entries)
-//@   loop 2 assigns *
-//@   loop 2 invariant b_s: unchanged(s)
-//@   loop 2 invariant b_buf: unchanged(s.cLogBuf)
-//@   loop 2 invariant b_arr: unchanged(s.cLogBuf.buf)
-//@   loop 2 invariant b_otx: unchanged(otx)
-//@   loop 2 invariant b_ents: unchanged(otx.entries)
-//@   loop 2 invariant b_hdr: hdr != nil ==> unchanged(hdr)
-//@   loop 2 invariant b_tx: unchanged(tx)
-//@   loop 2 invariant b_txhdr: tx.header != nil
-//@   loop 2 invariant b_sep1: !sameobj(s._txbs, tx)
-//@   loop 2 invariant b_sep2: !sameobj(s._txbs, tx.header)
-//@   loop 2 invariant b_ver: hdr != nil ==> tx.header.Version == hdr.Version
-//@   loop 2 invariant b_ver01: tx.header.Version == 0 || tx.header.Version == 1
-//@   loop 2 invariant b_md: tx.header.Metadata == otx.metadata
-//@   loop 2 invariant b_nent: tx.header.NEntries == len(otx.entries)
+// Both loops write the pooled holders tx.entries[i] (setKey/md/vLen/hVal, then vOff): one object per iteration, which no
+// frame expression can name. The engine's automatic loop frame keeps their contents, so frame:...:loop1/loop2 fail and are
+// excluded in the part file: no claimed obligation reads a TxEntry holder (BuildHashTree and performPrecommit, which do,
+// are used through contracts that say nothing about entry contents). `loop N assigns *` was tried and dropped: it also
+// havocs package variables (ghost counters of con-c05, sentinel errors) and every query exceeded the budget.
 
 //@ func (*OngoingTx).set
 
